@@ -35,7 +35,7 @@ Stmt(t) ==
       [] t = "Ec5" -> [k |-> "sym", n |-> "c", e |-> N(5)] [] t = "Eca" -> [k |-> "sym", n |-> "c", e |-> I("a")]
       [] t = "Ea7" -> [k |-> "sym", n |-> "a", e |-> N(7)] [] t = "Ei7" -> [k |-> "sym", n |-> "i", e |-> N(7)]
       [] t = "S1" -> Star(32768) [] t = "S2" -> Star(32770) [] t = "S3" -> Star(98304) [] t = "S4" -> Star(65534)
-      [] t = "S5" -> Star(98306)
+      [] t = "S5" -> Star(98306) [] t = "S7" -> Star(8257536) [] t = "S7b" -> Star(8257538)
       [] t = "A1" -> At(98304) [] t = "A2" -> At(8257536) [] t = "A3" -> At(32770) [] t = "A4" -> At(8323070)
       [] t = "AP0" -> [k |-> "apply", n |-> "m0", as |-> <<>>]
       [] t = "AP1a" -> [k |-> "apply", n |-> "m1", as |-> <<I("a")>>] [] t = "AP1n" -> [k |-> "apply", n |-> "m1", as |-> <<N(5)>>]
@@ -118,6 +118,8 @@ AlphaSeq ==
       [] Family = "recur" -> <<"M1{", "IFp{", "}", "DBp", "AP1d", "AP1n2">>
       [] Family = "caselabels" -> <<"Lq", "LQ", "DLq", "DLQ", "DB", "{", "}">>
       \* a *= to the very address relocated code has reached (@= ROM), then more bytes
+      \* *= to a RAM address (no storage offset) after ROM positions: the bytes follow the previous ones (or the program is refused)
+      [] Family = "ramstar" -> <<"S3", "S7", "S7b", "S1", "A1", "DB", "La", "DLa">>
       [] Family = "moves2" -> <<"A1", "DB", "S5", "S3", "La", "DLa", "S3d", "A1d">>
       [] Family = "symshadow" -> <<"C10", "Lc", "Evc", "DLv", "{", "}", "FORc02{">>
       [] Family = "symparam" -> <<"P7", "Mvp", "AP1a", "AP1n", "La", "{", "}">>
